@@ -779,6 +779,10 @@ class IntermediateCodeGen(AbstractCodeGen):
                 fakeSyms.append(idxName)
                 self.fakeidx += 1
 
+            else:
+                # as in the OBJECTS and AUGMENTS clauses
+                idxName = self.transOpers(idxName)
+
             index = OrderedDict()
             index['module'] = self._importMap.get(idxName, self.moduleName[0])
             index['object'] = idxName
